@@ -18,7 +18,8 @@ import (
 
 // pagingPeer: a registry that holds `items` and serves them in pages. How it splits the list
 // into pages is arbitrary (server-imposed page size per page), and so is the form of the Link
-// header (absolute URL, absolute path, with or without extra parameters). It honours `last`
+// header (absolute URL, absolute path, with or without extra parameters, the relation
+// written as quoted string or token, in either case, after other parameters). It honours `last`
 // and `n` of the request as the distribution spec says.
 type pagingPeer struct {
 	items     []string
@@ -92,6 +93,10 @@ func (p *pagingPeer) Do(req *http.Request) (*http.Response, error) {
 			resp.Header.Set("Link", "<"+req.URL.Scheme+"://"+req.URL.Host+next+">; rel=\"next\"")
 		case 2: // with the page size repeated and an extra parameter
 			resp.Header.Set("Link", "<"+next+"&n="+strconv.Itoa(n)+"&x=1>; rel=\"next\"")
+		case 3: // RFC 8288: the relation as a token, no space after ';'
+			resp.Header.Set("Link", "<"+next+">;rel=next")
+		case 4: // RFC 8288: parameter names are case-insensitive, other parameters may come first
+			resp.Header.Set("Link", "<"+next+">; title=\"x\"; REL=\"next\"")
 		}
 	}
 	return resp, nil
@@ -103,7 +108,7 @@ func (p *pagingPeer) Do(req *http.Request) (*http.Response, error) {
 func VerifC15Tags() {
 	N := verifrt.Param("N", 3)
 	all := []string{"t1", "t2", "t3", "t4"}[:N]
-	peer := &pagingPeer{items: all, linkForm: verifrt.Choice(3)}
+	peer := &pagingPeer{items: all, linkForm: verifrt.Choice(verifrt.Param("LF", 5))}
 	for i := 0; i < N; i++ {
 		peer.maxServe = append(peer.maxServe, 1+verifrt.Choice(N))
 	}
